@@ -20,6 +20,10 @@ fn other(v: u8) -> u8 {
 #[derive(Clone, Debug, PartialEq, Eq)]
 pub struct Base {
 	pub n: usize,
+	/// false: dependencies only on later artifacts (a<b<c<d, any version). true: the POMs are ordered
+	/// a1<b1<c1<(d1<)a2<b2<c2(<d2) and depend only on later POMs of other artifacts, so an artifact can
+	/// hang below another version of itself (a1 → b1 → a2)
+	pub vmajor: bool,
 	pub roots: Vec<Av>,
 	/// indexed by [`pom_idx`]: the ordered dependencies of that POM
 	pub deps: Vec<Vec<Av>>,
@@ -38,7 +42,7 @@ impl Base {
 	}
 
 	pub fn show(&self) -> String {
-		let mut s = format!("roots=[{}]", self.roots.iter().map(|(a, v)| format!("{}{}", ARTS[*a as usize], v)).collect::<Vec<_>>().join(","));
+		let mut s = format!("{}roots=[{}]", if self.vmajor { "order=a1<b1<..<a2<b2<.. " } else { "" }, self.roots.iter().map(|(a, v)| format!("{}{}", ARTS[*a as usize], v)).collect::<Vec<_>>().join(","));
 		for a in 0..self.n as u8 {
 			for v in 1..=2u8 {
 				let d = &self.deps[pom_idx((a, v))];
@@ -51,22 +55,75 @@ impl Base {
 	}
 }
 
-/// every ordered list of at most `max` dependencies on distinct artifacts above `art`
-fn dep_lists(n: usize, art: u8, max: usize) -> Vec<Vec<Av>> {
-	let targets: Vec<Av> = ((art + 1)..n as u8).flat_map(|t| [(t, 1u8), (t, 2u8)]).collect();
+/// position of a POM in the order that keeps the universe acyclic
+fn position(n: usize, vmajor: bool, av: Av) -> usize {
+	if vmajor { (av.1 as usize - 1) * n + av.0 as usize } else { pom_idx(av) }
+}
+
+/// the POMs the POM with index `p` may depend on
+pub fn targets(n: usize, vmajor: bool, p: usize) -> Vec<Av> {
+	let me: Av = ((p / 2) as u8, (p % 2) as u8 + 1);
+	let mut t: Vec<Av> = (0..n as u8).flat_map(|t| [(t, 1u8), (t, 2u8)]).filter(|t| t.0 != me.0 && position(n, vmajor, *t) > position(n, vmajor, me)).collect();
+	t.sort_by_key(|t| position(n, vmajor, *t));
+	if !vmajor {
+		t.sort();
+	}
+	t
+}
+
+/// every ordered list of at most `max` dependencies on distinct artifacts among `targets`
+fn dep_lists(targets: &[Av], max: usize) -> Vec<Vec<Av>> {
 	let mut out = vec![vec![]];
 	if max >= 1 {
-		for t in &targets {
+		for t in targets {
 			out.push(vec![*t]);
 		}
 	}
 	if max >= 2 {
-		for t in &targets {
-			for s in &targets {
+		for t in targets {
+			for s in targets {
 				if t.0 != s.0 {
 					out.push(vec![*t, *s]);
 				}
 			}
+		}
+	}
+	if max >= 3 {
+		for t in targets {
+			for s in targets {
+				for r in targets {
+					if t.0 != s.0 && t.0 != r.0 && s.0 != r.0 {
+						out.push(vec![*t, *s, *r]);
+					}
+				}
+			}
+		}
+	}
+	out
+}
+
+/// every ordered root list of two or three roots in which some artifact occurs more than once
+pub fn root_lists_dup(n: usize, len: usize) -> Vec<Vec<Av>> {
+	let all: Vec<Av> = (0..n as u8).flat_map(|t| [(t, 1u8), (t, 2u8)]).collect();
+	let mut out: Vec<Vec<Av>> = Vec::new();
+	let mut frontier: Vec<Vec<Av>> = vec![vec![]];
+	for _ in 0..len {
+		let mut next = Vec::new();
+		for l in &frontier {
+			for t in &all {
+				let mut m = l.clone();
+				m.push(*t);
+				next.push(m);
+			}
+		}
+		frontier = next;
+	}
+	for l in frontier {
+		let mut arts: Vec<u8> = l.iter().map(|x| x.0).collect();
+		arts.sort();
+		arts.dedup();
+		if arts.len() < l.len() {
+			out.push(l);
 		}
 	}
 	out
@@ -98,36 +155,45 @@ pub fn root_lists(n: usize, max: usize) -> Vec<Vec<Av>> {
 /// (edges only to later artifacts), for the given roots. POMs that cannot be reached from the roots stay
 /// without dependencies (they could not be observed).
 pub fn bases(n: usize, roots: &[Av]) -> Vec<Base> {
+	bases_with(n, roots, false, 2)
+}
+
+/// like [`bases`], in the given order of POMs and with at most `max_deps` dependencies per POM
+pub fn bases_with(n: usize, roots: &[Av], vmajor: bool, max_deps: usize) -> Vec<Base> {
 	let mut out = Vec::new();
-	let mut cur = Base { n, roots: roots.to_vec(), deps: vec![vec![]; n * 2] };
+	let mut cur = Base { n, vmajor, roots: roots.to_vec(), deps: vec![vec![]; n * 2] };
 	let mut reach = vec![false; n * 2];
 	for r in roots {
 		reach[pom_idx(*r)] = true;
 	}
-	fn rec(i: usize, cur: &mut Base, reach: &mut Vec<bool>, out: &mut Vec<Base>) {
+	// the POM indices in topological order
+	let mut order: Vec<usize> = (0..n * 2).collect();
+	order.sort_by_key(|p| position(n, vmajor, ((*p / 2) as u8, (*p % 2) as u8 + 1)));
+	fn rec(at: usize, order: &[usize], max_deps: usize, cur: &mut Base, reach: &mut Vec<bool>, out: &mut Vec<Base>) {
 		let n = cur.n;
-		if i == n * 2 {
+		if at == n * 2 {
 			out.push(cur.clone());
 			return;
 		}
+		let i = order[at];
 		if !reach[i] {
-			rec(i + 1, cur, reach, out);
+			rec(at + 1, order, max_deps, cur, reach, out);
 			return;
 		}
-		for l in dep_lists(n, (i / 2) as u8, 2) {
+		for l in dep_lists(&targets(n, cur.vmajor, i), max_deps) {
 			let newly: Vec<usize> = l.iter().map(|t| pom_idx(*t)).filter(|t| !reach[*t]).collect();
 			for t in &newly {
 				reach[*t] = true;
 			}
 			cur.deps[i] = l;
-			rec(i + 1, cur, reach, out);
+			rec(at + 1, order, max_deps, cur, reach, out);
 			for t in &newly {
 				reach[*t] = false;
 			}
 		}
 		cur.deps[i] = vec![];
 	}
-	rec(0, &mut cur, &mut reach, &mut out);
+	rec(0, &order, max_deps, &mut cur, &mut reach, &mut out);
 	out
 }
 
@@ -151,12 +217,14 @@ pub enum Attr {
 	Type,
 	Mgmt,
 	ManagedScope,
+	DecoyEntry,
 	InheritGroup,
 	InheritVersion,
 	ParentDep,
 	ParentDepMode,
 	Repo,
 	Render,
+	Packaging,
 	RootScope,
 	RootClassifier,
 	RootType,
@@ -205,7 +273,20 @@ const MGMT: [(bool, Src, Option<Src>, u8, &str); 14] = [
 const EDGE_SCOPES: [(Sc, u8); 5] = [(Sc::Runtime, 0), (Sc::Test, 0), (Sc::Provided, 1), (Sc::Compile, 1), (Sc::System, 1)];
 const MANAGED_SCOPES: [(Sc, u8); 4] = [(Sc::Runtime, 0), (Sc::Test, 0), (Sc::Provided, 1), (Sc::Compile, 1)];
 const ROOT_SCOPES: [(Sc, u8); 4] = [(Sc::Runtime, 0), (Sc::Test, 0), (Sc::Provided, 1), (Sc::System, 1)];
-const TYPES: [(&str, u8); 2] = [("ejb", 0), ("jar", 1)];
+/// (type, classifier written on the dependency, classifier written in its management entry, rank): test-jar
+/// implies the classifier `tests` (default artifact handlers), so all three spellings name one artifact
+const TYPES: [(&str, Option<&str>, Option<&str>, u8); 6] = [
+	("ejb", None, None, 0),
+	("jar", None, None, 1),
+	("test-jar", None, None, 1),
+	("test-jar", Some("tests"), None, 2),
+	("test-jar", None, Some("tests"), 2),
+	("zip", None, None, 2),
+];
+/// a management entry that differs from the dependency in exactly one part of its identity, written before every
+/// other entry of the POM, managing the other version and the scope test: it must not touch the dependency
+const DECOY_ENTRIES: [(&str, u8); 3] = [("other-group", 1), ("other-classifier", 1), ("other-type", 1)];
+const PACKAGINGS: [(&str, u8); 3] = [("bundle", 1), ("pom", 2), ("war", 2)];
 const RENDERS: [(Render, u8); 6] = [(Render::EmptyDeps, 0), (Render::Extras, 1), (Render::Reordered, 1), (Render::Pretty, 1), (Render::EmptyDm, 1), (Render::EmptyDmDeps, 1)];
 
 #[derive(Clone, Copy, Debug, PartialEq, Eq)]
@@ -235,17 +316,20 @@ pub enum RepoMode {
 	SecondOnly,
 	BothWithDecoy,
 	AuxInSecond,
+	ThirdOnly,
+	SecondWithDecoyInThird,
 }
-const REPO_MODES: [(RepoMode, u8, &str); 3] = [
+const REPO_MODES: [(RepoMode, u8, &str); 5] = [
 	(RepoMode::SecondOnly, 0, "served-by-second-repository-only"),
 	(RepoMode::BothWithDecoy, 0, "served-by-both-repositories,second-has-different-content"),
 	(RepoMode::AuxInSecond, 1, "parents-and-boms-served-by-second-repository"),
+	(RepoMode::ThirdOnly, 1, "served-by-third-repository-only"),
+	(RepoMode::SecondWithDecoyInThird, 2, "served-by-second-and-third-repository,third-has-different-content"),
 ];
 
 /// targets a parent may provide for the POM `p`: later artifacts the POM does not depend on itself
 fn parent_dep_targets(b: &Base, p: usize) -> Vec<Av> {
-	let art = (p / 2) as u8;
-	((art + 1)..b.n as u8).filter(|t| !b.deps[p].iter().any(|d| d.0 == *t)).flat_map(|t| [(t, 1u8), (t, 2u8)]).collect()
+	targets(b.n, b.vmajor, p).into_iter().filter(|t| !b.deps[p].iter().any(|d| d.0 == t.0)).collect()
 }
 
 fn extra_roots(b: &Base) -> Vec<(Av, bool)> {
@@ -281,14 +365,17 @@ pub fn all_devs(b: &Base) -> Vec<Dev> {
 			out.push(Dev { site, attr: Attr::Optional, val: 1, rank: 0 });
 			out.push(Dev { site, attr: Attr::Optional, val: 0, rank: 1 });
 			out.push(Dev { site, attr: Attr::Classifier, val: 0, rank: 0 });
-			for (i, (_, rank)) in TYPES.iter().enumerate() {
-				out.push(Dev { site, attr: Attr::Type, val: i as u8, rank: *rank });
+			for (i, t) in TYPES.iter().enumerate() {
+				out.push(Dev { site, attr: Attr::Type, val: i as u8, rank: t.3 });
 			}
 			for (i, m) in MGMT.iter().enumerate() {
 				out.push(Dev { site, attr: Attr::Mgmt, val: i as u8, rank: m.3 });
 			}
 			for (i, (_, rank)) in MANAGED_SCOPES.iter().enumerate() {
 				out.push(Dev { site, attr: Attr::ManagedScope, val: i as u8, rank: *rank });
+			}
+			for (i, (_, rank)) in DECOY_ENTRIES.iter().enumerate() {
+				out.push(Dev { site, attr: Attr::DecoyEntry, val: i as u8, rank: *rank });
 			}
 		}
 		let site = Site::Pom(p as u8);
@@ -308,14 +395,17 @@ pub fn all_devs(b: &Base) -> Vec<Dev> {
 		for (i, (_, rank)) in RENDERS.iter().enumerate() {
 			out.push(Dev { site, attr: Attr::Render, val: i as u8, rank: *rank });
 		}
+		for (i, (_, rank)) in PACKAGINGS.iter().enumerate() {
+			out.push(Dev { site, attr: Attr::Packaging, val: i as u8, rank: *rank });
+		}
 	}
 	for r in 0..b.roots.len() {
 		let site = Site::Root(r as u8);
 		for (i, (_, rank)) in ROOT_SCOPES.iter().enumerate() {
 			out.push(Dev { site, attr: Attr::RootScope, val: i as u8, rank: *rank });
 		}
-		out.push(Dev { site, attr: Attr::RootClassifier, val: 0, rank: 1 });
-		out.push(Dev { site, attr: Attr::RootType, val: 0, rank: 1 });
+		out.push(Dev { site, attr: Attr::RootClassifier, val: 0, rank: 0 });
+		out.push(Dev { site, attr: Attr::RootType, val: 0, rank: 0 });
 	}
 	for (i, _) in extra_roots(b).iter().enumerate() {
 		out.push(Dev { site: Site::Roots, attr: Attr::ExtraRoot, val: i as u8, rank: 0 });
@@ -336,9 +426,10 @@ pub fn describe_dev(b: &Base, d: &Dev) -> String {
 		Attr::Scope => format!("scope={}", EDGE_SCOPES[v].0.name()),
 		Attr::Optional => format!("optional={}", d.val == 1),
 		Attr::Classifier => "classifier=k".to_owned(),
-		Attr::Type => format!("type={}", TYPES[v].0),
+		Attr::Type => format!("type={}{}{}", TYPES[v].0, TYPES[v].1.map(|c| format!(",classifier={c}-written-on-the-dependency-only")).unwrap_or_default(), TYPES[v].2.map(|c| format!(",classifier={c}-written-in-the-management-entry-only")).unwrap_or_default()),
 		Attr::Mgmt => MGMT[v].4.to_owned(),
 		Attr::ManagedScope => format!("managed-scope={}", MANAGED_SCOPES[v].0.name()),
+		Attr::DecoyEntry => format!("own-pom-first-manages-the-same-artifact-with-{}", DECOY_ENTRIES[v].0),
 		Attr::InheritGroup => "groupId-from-parent".to_owned(),
 		Attr::InheritVersion => "version-from-parent".to_owned(),
 		Attr::ParentDep => match d.site {
@@ -351,6 +442,7 @@ pub fn describe_dev(b: &Base, d: &Dev) -> String {
 		Attr::ParentDepMode => PD_MODES[v].2.to_owned(),
 		Attr::Repo => REPO_MODES[v].2.to_owned(),
 		Attr::Render => format!("xml={:?}", RENDERS[v].0),
+		Attr::Packaging => format!("packaging={}", PACKAGINGS[v].0),
 		Attr::RootScope => format!("scope={}", ROOT_SCOPES[v].0.name()),
 		Attr::RootClassifier => "classifier=k".to_owned(),
 		Attr::RootType => "type=ejb".to_owned(),
@@ -370,9 +462,10 @@ struct EdgeAttr {
 	scope: Option<Sc>,
 	optional: Option<bool>,
 	classifier: bool,
-	type_: Option<&'static str>,
+	type_: Option<usize>,
 	mgmt: Option<usize>,
 	mscope: Option<Sc>,
+	decoy: Option<usize>,
 }
 
 #[derive(Clone, Debug)]
@@ -383,6 +476,7 @@ struct PomAttr {
 	pdep_mode: Option<PdMode>,
 	repo: RepoMode,
 	render: Render,
+	packaging: Option<&'static str>,
 }
 
 struct PomB {
@@ -403,12 +497,14 @@ impl Family {
 		let (name, version) = (self.name.clone(), self.version.clone());
 		self.poms.entry(suffix).or_insert_with(|| PomB {
 			pom: Pom {
+				group: GROUP.to_owned(),
 				artifact: format!("{name}{suffix}"),
 				version,
 				write_group: true,
 				write_version: true,
 				parent: None,
-				packaging_pom: !suffix.is_empty(),
+				packaging: (!suffix.is_empty()).then(|| "pom".to_owned()),
+				model_version: "4.0.0".to_owned(),
 				dm: vec![],
 				deps: vec![],
 				render: Render::Compact,
@@ -420,7 +516,7 @@ impl Family {
 	fn set_parent(&mut self, child: &'static str, parent: &'static str) {
 		let pa = self.pom(parent).pom.artifact.clone();
 		let v = self.version.clone();
-		self.pom(child).pom.parent = Some((pa, v));
+		self.pom(child).pom.parent = Some((GROUP.to_owned(), pa, v));
 	}
 	fn add_import(&mut self, of: &'static str, bom: &'static str) {
 		let ba = self.pom(bom).pom.artifact.clone();
@@ -487,8 +583,8 @@ pub fn build(b: &Base, devs: &[Dev]) -> Option<Universe> {
 		}
 	}
 	let mut edge: BTreeMap<(u8, u8), EdgeAttr> = BTreeMap::new();
-	let mut pattr: Vec<PomAttr> = (0..b.n * 2).map(|_| PomAttr { inherit_group: false, inherit_version: false, pdep: None, pdep_mode: None, repo: RepoMode::First, render: Render::Compact }).collect();
-	let mut roots: Vec<RootDecl> = b.roots.iter().map(|(a, v)| RootDecl { artifact: ARTS[*a as usize].to_owned(), version: vs(*v), classifier: None, type_: "jar".to_owned(), scope: Sc::Compile }).collect();
+	let mut pattr: Vec<PomAttr> = (0..b.n * 2).map(|_| PomAttr { inherit_group: false, inherit_version: false, pdep: None, pdep_mode: None, repo: RepoMode::First, render: Render::Compact, packaging: None }).collect();
+	let mut roots: Vec<RootDecl> = b.roots.iter().map(|(a, v)| RootDecl { group: GROUP.to_owned(), artifact: ARTS[*a as usize].to_owned(), version: vs(*v), classifier: None, type_: "jar".to_owned(), scope: Sc::Compile }).collect();
 	let mut extra: Option<(Av, bool)> = None;
 	for d in devs {
 		let v = d.val as usize;
@@ -499,9 +595,10 @@ pub fn build(b: &Base, devs: &[Dev]) -> Option<Universe> {
 					Attr::Scope => e.scope = Some(EDGE_SCOPES[v].0),
 					Attr::Optional => e.optional = Some(d.val == 1),
 					Attr::Classifier => e.classifier = true,
-					Attr::Type => e.type_ = Some(TYPES[v].0),
+					Attr::Type => e.type_ = Some(v),
 					Attr::Mgmt => e.mgmt = Some(v),
 					Attr::ManagedScope => e.mscope = Some(MANAGED_SCOPES[v].0),
+					Attr::DecoyEntry => e.decoy = Some(v),
 					_ => return None,
 				}
 			},
@@ -514,6 +611,7 @@ pub fn build(b: &Base, devs: &[Dev]) -> Option<Universe> {
 					Attr::ParentDepMode => a.pdep_mode = Some(PD_MODES[v].0),
 					Attr::Repo => a.repo = REPO_MODES[v].0,
 					Attr::Render => a.render = RENDERS[v].0,
+					Attr::Packaging => a.packaging = Some(PACKAGINGS[v].0),
 					_ => return None,
 				}
 			},
@@ -531,7 +629,7 @@ pub fn build(b: &Base, devs: &[Dev]) -> Option<Universe> {
 		}
 	}
 	if let Some(((a, v), before)) = extra {
-		let r = RootDecl { artifact: ARTS[a as usize].to_owned(), version: vs(v), classifier: None, type_: "jar".to_owned(), scope: Sc::Compile };
+		let r = RootDecl { group: GROUP.to_owned(), artifact: ARTS[a as usize].to_owned(), version: vs(v), classifier: None, type_: "jar".to_owned(), scope: Sc::Compile };
 		if before {
 			roots.insert(0, r);
 		} else {
@@ -552,10 +650,27 @@ pub fn build(b: &Base, devs: &[Dev]) -> Option<Universe> {
 		for (slot, (t, v)) in b.deps[p].iter().enumerate() {
 			let ea = edge.get(&(p as u8, slot as u8)).cloned().unwrap_or_default();
 			let tname = ARTS[*t as usize].to_owned();
-			let classifier = ea.classifier.then(|| "k".to_owned());
+			let ty = ea.type_.map(|i| TYPES[i]);
+			// a written classifier stands on both sides; otherwise the type decides where its implied one is spelled out
+			let classifier = if ea.classifier { Some("k".to_owned()) } else { ty.and_then(|t| t.1).map(str::to_owned) };
+			let entry_classifier = if ea.classifier { Some("k".to_owned()) } else { ty.and_then(|t| t.2).map(str::to_owned) };
 			// an explicit "jar" on the dependency meets an entry that leaves the type out (jar is the default)
-			let entry_type = ea.type_.filter(|t| *t != "jar").map(str::to_owned);
-			let mk = |version: u8, scope: Option<Sc>| MgDecl { artifact: tname.clone(), version: vs(version), scope, classifier: classifier.clone(), type_: entry_type.clone(), import: false };
+			let entry_type = ty.map(|t| t.0).filter(|t| *t != "jar").map(str::to_owned);
+			let mk = |version: u8, scope: Option<Sc>| MgDecl { group: GROUP.to_owned(), artifact: tname.clone(), version: vs(version), scope, classifier: entry_classifier.clone(), type_: entry_type.clone(), import: false };
+			if ty.is_some_and(|t| t.2.is_some()) && ea.mgmt.is_none() && ea.mscope.is_none() {
+				// a spelling of the management entry, and there is no entry
+				return None;
+			}
+			if let Some(dv) = ea.decoy {
+				let mut e = mk(other(*v), Some(Sc::Test));
+				e.classifier = classifier.clone();
+				match dv {
+					0 => e.group = "o.x".to_owned(),
+					1 => e.classifier = Some("z".to_owned()),
+					_ => e.type_ = Some("war".to_owned()),
+				}
+				fam.pom("").entries.insert(0, e);
+			}
 			let mut version_given = true;
 			if let Some(m) = ea.mgmt {
 				let (given, primary, shadow, _, _) = MGMT[m];
@@ -570,18 +685,19 @@ pub fn build(b: &Base, devs: &[Dev]) -> Option<Universe> {
 				fam.add_entry(Src::Own, mk(*v, Some(s)));
 			}
 			fam.pom("").pom.deps.push(DepDecl {
+				group: GROUP.to_owned(),
 				artifact: tname.clone(),
 				version: version_given.then(|| vs(*v)),
 				scope: ea.scope,
 				optional: ea.optional,
 				classifier: classifier.clone(),
-				type_: ea.type_.map(str::to_owned),
+				type_: ty.map(|t| t.0.to_owned()),
 			});
 		}
 		if let Some((t, v)) = pa.pdep {
 			let tname = ARTS[t as usize].to_owned();
-			let dep = |version: Option<u8>, scope: Option<Sc>, optional: Option<bool>| DepDecl { artifact: tname.clone(), version: version.map(vs), scope, optional, classifier: None, type_: None };
-			let ent = |version: u8, scope: Option<Sc>| MgDecl { artifact: tname.clone(), version: vs(version), scope, classifier: None, type_: None, import: false };
+			let dep = |version: Option<u8>, scope: Option<Sc>, optional: Option<bool>| DepDecl { group: GROUP.to_owned(), artifact: tname.clone(), version: version.map(vs), scope, optional, classifier: None, type_: None };
+			let ent = |version: u8, scope: Option<Sc>| MgDecl { group: GROUP.to_owned(), artifact: tname.clone(), version: vs(version), scope, classifier: None, type_: None, import: false };
 			let at = fam.ensure(Src::Parent);
 			match pa.pdep_mode.unwrap_or(PdMode::Plain) {
 				PdMode::Plain => fam.pom(at).pom.deps.push(dep(Some(v), None, None)),
@@ -619,6 +735,9 @@ pub fn build(b: &Base, devs: &[Dev]) -> Option<Universe> {
 			fam.pom("").pom.write_version = false;
 		}
 		fam.pom("").pom.render = pa.render;
+		if let Some(pk) = pa.packaging {
+			fam.pom("").pom.packaging = Some(pk.to_owned());
+		}
 		let has_aux = fam.poms.len() > 1;
 		if pa.repo == RepoMode::AuxInSecond && !has_aux {
 			return None;
@@ -628,7 +747,7 @@ pub fn build(b: &Base, devs: &[Dev]) -> Option<Universe> {
 			// managed entries are declared before the imports (supported subset)
 			pom.dm = pb.entries;
 			let version = pom.version.clone();
-			pom.dm.extend(pb.imports.into_iter().map(|a| MgDecl { artifact: a, version: version.clone(), scope: None, classifier: None, type_: None, import: true }));
+			pom.dm.extend(pb.imports.into_iter().map(|a| MgDecl { group: GROUP.to_owned(), artifact: a, version: version.clone(), scope: None, classifier: None, type_: None, import: true }));
 			match pom.render {
 				Render::EmptyDeps if !pom.deps.is_empty() => return None,
 				Render::EmptyDm | Render::EmptyDmDeps if !pom.dm.is_empty() => return None,
@@ -638,7 +757,8 @@ pub fn build(b: &Base, devs: &[Dev]) -> Option<Universe> {
 				match pa.repo {
 					RepoMode::First | RepoMode::AuxInSecond => files.push((0, pom)),
 					RepoMode::SecondOnly => files.push((1, pom)),
-					RepoMode::BothWithDecoy => {
+					RepoMode::ThirdOnly => files.push((2, pom)),
+					RepoMode::BothWithDecoy | RepoMode::SecondWithDecoyInThird => {
 						let mut decoy = pom.clone();
 						for d in &mut decoy.deps {
 							if let Some(v) = &mut d.version {
@@ -646,7 +766,7 @@ pub fn build(b: &Base, devs: &[Dev]) -> Option<Universe> {
 							}
 						}
 						if decoy.deps.is_empty() && (art as usize) + 1 < b.n {
-							decoy.deps.push(DepDecl { artifact: ARTS[art as usize + 1].to_owned(), version: Some("1".to_owned()), scope: None, optional: None, classifier: None, type_: None });
+							decoy.deps.push(DepDecl { group: GROUP.to_owned(), artifact: ARTS[art as usize + 1].to_owned(), version: Some("1".to_owned()), scope: None, optional: None, classifier: None, type_: None });
 							if decoy.render == Render::EmptyDeps {
 								decoy.render = Render::Compact;
 							}
@@ -654,8 +774,9 @@ pub fn build(b: &Base, devs: &[Dev]) -> Option<Universe> {
 						if decoy == pom {
 							return None;
 						}
-						files.push((0, pom));
-						files.push((1, decoy));
+						let at = if pa.repo == RepoMode::BothWithDecoy { 0 } else { 1 };
+						files.push((at, pom));
+						files.push((at + 1, decoy));
 					},
 				}
 			} else {
@@ -664,7 +785,11 @@ pub fn build(b: &Base, devs: &[Dev]) -> Option<Universe> {
 		}
 	}
 	Some(Universe {
-		repos: vec![("first".to_owned(), "mem://one.invalid/repo".to_owned()), ("second".to_owned(), "mem://two.invalid/maven/".to_owned())],
+		repos: vec![
+			("first".to_owned(), "mem://one.invalid/repo".to_owned()),
+			("second".to_owned(), "mem://two.invalid/maven/".to_owned()),
+			("third".to_owned(), "mem://three.invalid".to_owned()),
+		],
 		files,
 		roots,
 	})
